@@ -11,9 +11,18 @@
                    predecessor).
 
    The loops of the renderer are unfolded once (stmt_loop_ok, group_loop_ok); the rest is one
-   case per constructor. *)
+   case per constructor.
+
+   Types are a nested inductive: induction by [ty_ind'] with the conditional lemmas
+   params_free_P / results_free_P / sig_free_P / field_good_P (premise: the types inside are
+   chains).  A keyed composite literal goes through the Dict theorem of Proofs/DictProofs.v
+   (values_dict_spec) with the texts read off the renderer ([rtxt]): every key and value of
+   MiniGo is free, hence live and settled at every table (free_values_dict).  At the end: the
+   order of keyed elements (keyed_canon_sorted, keyed_canon_perm). *)
 From Jen Require Import Base.Bytes Base.Num Model.Code Model.Naming Model.Render Model.FileRender Model.Exec.
-From Jen Require Import Gen.Tables Proofs.CommentProofs Proofs.EmitProofs Spec.MiniGo.
+From Jen Require Import Gen.Tables Proofs.CommentProofs Proofs.EmitProofs Proofs.DictProofs Spec.MiniGo.
+From Jen Require Import Base.Sort.
+From Coq Require Import Permutation Sorted.
 Local Open Scope N_scope.
 
 (* ------------------------------------------------------------------ lists and joins *)
@@ -190,6 +199,35 @@ Section Canon.
   (* a chain wrapped as one operand: Add(..) *)
   Lemma chain_operand l x : chain l x -> free (CStmt l) x.
   Proof. intros H. apply good_free, chain_good, H. Qed.
+
+  (* ---- Values(Dict{..}): keys and values that are free (Proofs/DictProofs.v: dict_spec with
+     the texts read off the renderer - every pair is live and settled at every table) ---- *)
+  Definition pair_free (cp : code * code) (kv : str * str) : Prop :=
+    free (fst cp) (fst kv) /\ free (snd cp) (snd kv).
+
+  Definition rtxt (t : table) (c : code) : str :=
+    match render cfg false t c with Ok r => snd r | Panic _ => [] end.
+
+  Lemma pairs_settled cpairs kvs t : Forall2 pair_free cpairs kvs ->
+    settled cfg t (rtxt t) cpairs /\ map (pair_txt (rtxt t)) (filter (live cfg t) cpairs) = kvs.
+  Proof.
+    induction 1 as [|cp kv l l' [[Hnk Hk] [Hnv Hv]] _ [IH1 IH2]].
+    - split; [intros kv [] | reflexivity].
+    - split.
+      + intros x [<- | Hin] Hl; [|exact (IH1 x Hin Hl)]. unfold rtxt. rewrite Hk, Hv. split; reflexivity.
+      + cbn [filter]. unfold live at 1. rewrite Hnk, Hnv. cbn [orb negb map]. rewrite IH2.
+        unfold pair_txt, rtxt. rewrite Hk, Hv. destruct kv; reflexivity.
+  Qed.
+
+  Lemma free_values_dict gid cpairs kvs : Forall2 pair_free cpairs kvs ->
+    free (CGroup gid (S "values") (S "{") (S "}") (S ",") false [CDict cpairs])
+         (S "{" ++ keyed_body (sort_keyed kvs) ++ S "}").
+  Proof.
+    intros HF. split; [intros t; reflexivity|]. intros ctx t.
+    destruct (pairs_settled cpairs kvs t HF) as [Hs Hm].
+    change (S "values") with s_values. rewrite (values_dict_spec cfg t (rtxt t) ctx gid cpairs Hs), Hm.
+    reflexivity.
+  Qed.
 End Canon.
 
 (* ------------------------------------------------------------------ the rows of the table *)
@@ -247,6 +285,12 @@ Section Tables.
   Proof. apply group_of_ok. in_list. Qed.
   Lemma gDefs_eq g i : gDefs g i = CGroup g (S "defs") (S "(") (S ")") (S "") true i.
   Proof. apply group_of_ok. in_list. Qed.
+  Lemma gStruct_eq g i : gStruct g i = CGroup g (S "struct") (S "struct{") (S "}") (S "") true i.
+  Proof. apply group_of_ok. in_list. Qed.
+  Lemma gInterface_eq g i : gInterface g i = CGroup g (S "interface") (S "interface{") (S "}") (S "") true i.
+  Proof. apply group_of_ok. in_list. Qed.
+  Lemma gAssert_eq g i : gAssert g i = CGroup g (S "assert") (S ".(") (S ")") (S "") false i.
+  Proof. apply group_of_ok. in_list. Qed.
 
   Lemma kw_True : kw (S "True") = CTok (TkId (S "true")). Proof. apply kw_ok. in_list. Qed.
   Lemma kw_False : kw (S "False") = CTok (TkId (S "false")). Proof. apply kw_ok. in_list. Qed.
@@ -262,6 +306,10 @@ Section Tables.
   Lemma kw_Const : kw (S "Const") = CTok (TkText (S "const")). Proof. apply kw_ok. in_list. Qed.
   Lemma kw_Type : kw (S "Type") = CTok (TkText (S "type")). Proof. apply kw_ok. in_list. Qed.
   Lemma kw_Range : kw (S "Range") = CTok (TkText (S "range")). Proof. apply kw_ok. in_list. Qed.
+  Lemma kw_Chan : kw (S "Chan") = CTok (TkText (S "chan")). Proof. apply kw_ok. in_list. Qed.
+  Lemma kw_Goto : kw (S "Goto") = CTok (TkText (S "goto")). Proof. apply kw_ok. in_list. Qed.
+  Lemma kw_Fallthrough : kw (S "Fallthrough") = CTok (TkText (S "fallthrough")). Proof. apply kw_ok. in_list. Qed.
+  Lemma kw_Select : kw (S "Select") = CTok (TkText (S "select")). Proof. apply kw_ok. in_list. Qed.
 End Tables.
 
 (* ------------------------------------------------------------------ the constructs *)
@@ -308,6 +356,19 @@ Section Build.
     rewrite (render_multi_group cfg 0 (S "defs") (S "(") (S ")") items xs H); reflexivity.
   Qed.
 
+  Lemma free_assert items xs : Forall2 (good cfg) items xs -> free cfg (gAssert 0 items) (S ".(" ++ join [] xs ++ S ")").
+  Proof. intros H. rewrite (gAssert_eq Hok). apply free_flat_group; side. Qed.
+  Lemma free_struct items xs : Forall2 (good cfg) items xs -> free cfg (gStruct 0 items) (type_lines (S "struct{") xs).
+  Proof.
+    intros H. rewrite (gStruct_eq Hok). split; [reflexivity|]. intros ctx t.
+    rewrite (render_multi_group cfg 0 (S "struct") (S "struct{") (S "}") items xs H); reflexivity.
+  Qed.
+  Lemma free_interface items xs : Forall2 (good cfg) items xs -> free cfg (gInterface 0 items) (type_lines (S "interface{") xs).
+  Proof.
+    intros H. rewrite (gInterface_eq Hok). split; [reflexivity|]. intros ctx t.
+    rewrite (render_multi_group cfg 0 (S "interface") (S "interface{") (S "}") items xs H); reflexivity.
+  Qed.
+
   (* a Block: with braces, or - directly after Case / Default in its statement - without *)
   Lemma item_block all items xs : Forall2 (good cfg) items xs ->
     item_ok cfg all (gBlock 1 items) (if case_ctx all (gBlock 1 items) then lines xs else braces xs).
@@ -352,36 +413,132 @@ Section Build.
   Proof. destruct o; reflexivity. Qed.
 
   (* ---- types ---- *)
-  Lemma ty_chain t : chain cfg (bty t) (cty t).
+  Definition Pt (t : ty) : Prop := chain cfg (bty t) (cty t).
+
+  Lemma free_kw_text m s : kw m = CTok (TkText s) -> str_eqb s s_default = false -> free cfg (kw m) s.
+  Proof. intros -> H. apply free_tktext, H. Qed.
+
+  Lemma param_good_P p : Pt (snd p) -> good cfg (bparam p) (cparam p).
   Proof.
-    induction t as [n | t IH | t IH | k IHk v IHv]; cbn [bty cty].
-    - apply (chain_free cfg [id n] [n]); [|discriminate]. constructor; [apply free_id | constructor].
-    - eapply chain_eq; [apply (chain_free cfg _ [S "*"; cty t]); [|discriminate]|reflexivity].
+    destruct p as [n t]. cbn [snd]. intros H. unfold bparam, bparam_with, cparam, cparam_with. cbn [fst snd].
+    apply chain_good. eapply chain_eq; [apply (chain_free cfg _ [n; cty t]); [|discriminate]|reflexivity].
+    constructor; [apply free_id|]. constructor; [apply chain_operand, H | constructor].
+  Qed.
+
+  Lemma free_tag kvs : kvs <> [] -> free cfg (CTag kvs) (tag_text kvs).
+  Proof. intros H. split; intros; [destruct kvs; [congruence | reflexivity] | reflexivity]. Qed.
+
+  (* a field: Id(n).Add(T) and, for a non-empty tag, .Tag(kvs) *)
+  Lemma field_good_P f : Pt (fd_ty f) -> good cfg (bfield f) (cfield f).
+  Proof.
+    destruct f as [[n t] kvs]. unfold bfield, bfield_with, cfield, cfield_with, fd_name, fd_ty, fd_tag. cbn [fst snd].
+    intros H. apply chain_good. destruct kvs as [|kv kvs].
+    - cbn [app]. eapply chain_eq; [apply (chain_free cfg _ [n; cty t]); [|discriminate]|cbn [join]; rewrite app_nil_r; reflexivity].
+      constructor; [apply free_id|]. constructor; [apply chain_operand, H | constructor].
+    - eapply chain_eq; [apply (chain_free cfg _ [n; cty t; tag_text (kv :: kvs)]); [|discriminate]|reflexivity].
+      constructor; [apply free_id|]. constructor; [apply chain_operand, H|].
+      constructor; [apply free_tag; discriminate | constructor].
+  Qed.
+
+  Lemma params_good_P ps : ParamsP Pt ps -> Forall2 (good cfg) (map bparam ps) (map cparam ps).
+  Proof. intros H. apply Forall2_map_both. eapply Forall_impl; [|exact H]. intros p Hp. apply param_good_P, Hp. Qed.
+
+  Lemma params_free_P ps : ParamsP Pt ps -> free cfg (bparams ps) (cparams ps).
+  Proof. intros H. unfold bparams, bparams_with, cparams, cparams_with. apply free_params, params_good_P, H. Qed.
+
+  (* the texts of the result items: none, the type, or the parenthesised list *)
+  Definition results_texts (res : list ty) : list str :=
+    match res with
+    | [] => []
+    | [t] => [cty t]
+    | _ => [S "(" ++ join comma (map cty res) ++ S ")"]
+    end.
+
+  Lemma results_free_P res : Forall Pt res -> Forall2 (free cfg) (bresults res) (results_texts res).
+  Proof.
+    intros H. unfold bresults. destruct res as [|t [|t2 res]]; cbn [bresults_with results_texts].
+    - constructor.
+    - inversion H; subst. constructor; [apply chain_operand; assumption | constructor].
+    - constructor; [|constructor]. apply free_params. apply Forall2_map_both.
+      eapply Forall_impl; [|exact H]. intros a Ha. apply chain_good, Ha.
+  Qed.
+
+  Lemma sig_free_P sg : SigP Pt sg -> Forall2 (free cfg) (bsig sg) (cparams (fst sg) :: results_texts (snd sg)).
+  Proof. intros [Hp Hr]. constructor; [apply params_free_P, Hp | apply results_free_P, Hr]. Qed.
+
+  Lemma csig_texts sg : join sp (cparams (fst sg) :: results_texts (snd sg)) = csig sg.
+  Proof.
+    destruct sg as [ps res]. unfold csig, csig_with. cbn [fst snd].
+    destruct res as [|t [|t2 res]]; cbn [results_texts cresults_with join]; rewrite ?app_nil_r; reflexivity.
+  Qed.
+
+  Lemma join_cons_ne (x : str) xs : xs <> [] -> join sp (x :: xs) = x ++ sp ++ join sp xs.
+  Proof. destruct xs; [congruence | reflexivity]. Qed.
+
+  Lemma ty_chain t : Pt t.
+  Proof.
+    apply (ty_ind' Pt); unfold Pt; cbn [bty cty].
+    - intros n. apply (chain_free cfg [id n] [n]); [|discriminate]. constructor; [apply free_id | constructor].
+    - intros t0 IH. eapply chain_eq; [apply (chain_free cfg _ [S "*"; cty t0]); [|discriminate]|reflexivity].
       constructor; [apply free_op; reflexivity|]. constructor; [apply chain_operand, IH | constructor].
-    - eapply chain_eq; [apply (chain_free cfg _ [S "[]"; cty t]); [|discriminate]|reflexivity].
+    - intros t0 IH. eapply chain_eq; [apply (chain_free cfg _ [S "[]"; cty t0]); [|discriminate]|reflexivity].
       constructor; [|constructor; [apply chain_operand, IH | constructor]].
       eapply free_eq; [apply (free_index [] []); constructor | reflexivity].
-    - eapply chain_eq; [apply (chain_free cfg _ [S "map[" ++ cty k ++ S "]"; cty v]); [|discriminate]|].
+    - intros k v IHk IHv. eapply chain_eq; [apply (chain_free cfg _ [S "map[" ++ cty k ++ S "]"; cty v]); [|discriminate]|].
       + constructor; [|constructor; [apply chain_operand, IHv | constructor]].
         eapply free_eq; [apply (free_map [CStmt (bty k)] [cty k])|reflexivity].
         constructor; [apply chain_good, IHk | constructor].
       + cbn [join]. rewrite <- !app_assoc. reflexivity.
+    - intros n t0 IH.
+      eapply chain_eq; [apply (chain_free cfg _ [S "[" ++ Z_to_dec n ++ S "]"; cty t0]); [|discriminate]|].
+      + constructor; [|constructor; [apply chain_operand, IH | constructor]].
+        eapply free_eq; [apply (free_index [_] [Z_to_dec n])|reflexivity].
+        constructor; [|constructor]. apply chain_good.
+        apply (chain_free cfg [_] [Z_to_dec n]); [|discriminate]. constructor; [apply free_int | constructor].
+      + cbn [join]. rewrite <- !app_assoc. reflexivity.
+    - intros d t0 IH. destruct d.
+      + eapply chain_eq; [apply (chain_free cfg _ [S "chan"; cty t0]); [|discriminate]|reflexivity].
+        constructor; [apply (free_kw_text _ _ (kw_Chan Hok)); reflexivity|].
+        constructor; [apply chain_operand, IH | constructor].
+      + eapply chain_eq; [apply (chain_free cfg _ [S "<-"; S "chan"; cty t0]); [|discriminate]|reflexivity].
+        constructor; [apply free_op; reflexivity|].
+        constructor; [apply (free_kw_text _ _ (kw_Chan Hok)); reflexivity|].
+        constructor; [apply chain_operand, IH | constructor].
+      + eapply chain_eq; [apply (chain_free cfg _ [S "chan"; S "<-"; cty t0]); [|discriminate]|reflexivity].
+        constructor; [apply (free_kw_text _ _ (kw_Chan Hok)); reflexivity|].
+        constructor; [apply free_op; reflexivity|].
+        constructor; [apply chain_operand, IH | constructor].
+    - intros t0 IH. eapply chain_eq; [apply (chain_free cfg _ [S "..."; cty t0]); [|discriminate]|reflexivity].
+      constructor; [apply free_op; reflexivity|]. constructor; [apply chain_operand, IH | constructor].
+    - intros ps res Hp Hr.
+      eapply chain_eq; [apply (chain_free cfg _ (S "func" :: cparams ps :: results_texts res)); [|discriminate]|].
+      + constructor; [apply (free_kw_text _ _ (kw_Func Hok)); reflexivity|].
+        exact (sig_free_P (ps, res) (conj Hp Hr)).
+      + rewrite join_cons_ne by discriminate. pose proof (csig_texts (ps, res)) as E. cbn [fst snd] in E.
+        rewrite E. reflexivity.
+    - intros fs Hf. apply (chain_free cfg [_] [_]); [|discriminate]. constructor; [|constructor].
+      apply free_struct. apply Forall2_map_both. eapply Forall_impl; [|exact Hf]. intros f Hf0. apply field_good_P, Hf0.
+    - intros ms Hm. apply (chain_free cfg [_] [_]); [|discriminate]. constructor; [|constructor].
+      apply free_interface. apply Forall2_map_both. eapply Forall_impl; [|exact Hm].
+      intros [m sg] Hsg. cbn [fst snd] in *. apply chain_good.
+      eapply chain_eq; [apply (chain_free cfg _ (m :: cparams (fst sg) :: results_texts (snd sg))); [|discriminate]|].
+      + constructor; [apply free_id|]. exact (sig_free_P sg Hsg).
+      + rewrite join_cons_ne by discriminate. rewrite csig_texts. reflexivity.
   Qed.
 
   Lemma ty_operand t : free cfg (CStmt (bty t)) (cty t).
   Proof. apply chain_operand, ty_chain. Qed.
 
-  Lemma params_free ps : free cfg (bparams ps) (cparams ps).
-  Proof.
-    unfold bparams, cparams. apply free_params. apply Forall2_map_both. apply Forall_forall. intros [n t] _.
-    unfold bparam, cparam. cbn [fst snd]. apply chain_good.
-    eapply chain_eq; [apply (chain_free cfg _ [n; cty t]); [|discriminate]|reflexivity].
-    constructor; [apply free_id|]. constructor; [apply ty_operand | constructor].
-  Qed.
+  Lemma all_params ps : ParamsP Pt ps.
+  Proof. apply Forall_forall. intros p _. apply ty_chain. Qed.
+  Lemma all_tys res : Forall Pt res.
+  Proof. apply Forall_forall. intros p _. apply ty_chain. Qed.
 
-  Definition result_texts (res : option ty) : list str := match res with Some t => [cty t] | None => [] end.
-  Lemma result_free res : Forall2 (free cfg) (bresult res) (result_texts res).
-  Proof. destruct res as [t|]; cbn; [constructor; [apply ty_operand | constructor] | constructor]. Qed.
+  Lemma params_free ps : free cfg (bparams ps) (cparams ps).
+  Proof. apply params_free_P, all_params. Qed.
+
+  Lemma result_free res : Forall2 (free cfg) (bresults res) (results_texts res).
+  Proof. apply results_free_P, all_tys. Qed.
   (* ---- the induction predicates ---- *)
   Definition Pe (e : expr) : Prop := chain cfg (bexpr e) (cexpr e).
   Definition Ps (s : stmt) : Prop := chain cfg (bstmt s) (cstmt s).
@@ -512,29 +669,60 @@ Section Build.
     - constructor; [apply free_values, (exprs_good elts He) | constructor].
     - reflexivity.
   Qed.
-  Ltac txt := cbn [join app opt_text cresult]; rewrite ?app_nil_r, <- ?app_assoc; reflexivity.
 
-  Lemma free_kw_text m s : kw m = CTok (TkText s) -> str_eqb s s_default = false -> free cfg (kw m) s.
-  Proof. intros -> H. apply free_tktext, H. Qed.
+  Lemma pairs_free pairs : Forall (PairP Pe) pairs ->
+    Forall2 (pair_free cfg) (map (fun kv => (CStmt (bexpr (fst kv)), CStmt (bexpr (snd kv)))) pairs)
+            (map (fun kv => (cexpr (fst kv), cexpr (snd kv))) pairs).
+  Proof.
+    intros H. apply Forall2_map_both. eapply Forall_impl; [|exact H]. intros kv [Hk Hv].
+    split; cbn [fst snd]; apply chain_operand; assumption.
+  Qed.
+
+  Lemma pe_keyed t pairs : Forall (PairP Pe) pairs -> Pe (EKeyed t pairs).
+  Proof.
+    intros Hp. unfold Pe. cbn [bexpr cexpr].
+    eapply chain_eq; [eapply (chain_app cfg _ _ _ [_] (ty_chain t)); [|discriminate]|].
+    - constructor; [rewrite (gValues_eq Hok); apply free_values_dict, (pairs_free pairs Hp) | constructor].
+    - reflexivity.
+  Qed.
+  Ltac txt := cbn [join app opt_text]; rewrite ?app_nil_r, <- ?app_assoc; reflexivity.
+
+  (* func [receiver] [name] (params) [result] { body } *)
+  Lemma results_cases (P : list ty -> Prop) :
+    P [] -> (forall t, P [t]) -> (forall t t2 r, P (t :: t2 :: r)) -> forall res, P res.
+  Proof. intros H0 H1 H2 [|t [|t2 r]]; auto. Qed.
+
+  Lemma func_chain hd hxs ps res body :
+    Forall2 (free cfg) hd hxs ->
+    (forall items suf, case_ctx ((hd ++ bparams ps :: bresults res) ++ gBlock 1 items :: [] ++ suf) (gBlock 1 items) = false) ->
+    Forall Ps body ->
+    chain cfg ((hd ++ bparams ps :: bresults res) ++ [gBlock 1 (map (fun s => CStmt (bstmt s)) body)])
+          (join sp ((hxs ++ cparams ps :: results_texts res) ++ [braces (map cstmt body)])).
+  Proof.
+    intros Hhd Hctx Hb. apply chain_block; [|exact (stmts_good body Hb)|constructor|apply Hctx].
+    apply Forall2_app; [exact Hhd|]. constructor; [apply params_free | apply result_free].
+  Qed.
+
+  Ltac ctx3 res := intros items suf; revert res; apply results_cases; intros; unfold bparams, bparams_with, bresults, bresults_with;
+    rewrite ?(kw_Func Hok), ?(gParams_eq Hok), ?(gBlock_eq Hok); reflexivity.
+  Ltac txt3 res := revert res; apply results_cases; intros; unfold cresults; cbn [results_texts cresults_with]; txt.
 
   Lemma pe_func ps res body : Forall Ps body -> Pe (EFunc ps res body).
   Proof.
-    intros Hb. unfold Pe. cbn [bexpr cexpr]. pose proof (stmts_good body Hb) as HB.
-    destruct res as [t|]; cbn [bresult opt_items app].
-    - eapply chain_eq;
-        [eapply (chain_block [kw (S "Func"); bparams ps; CStmt (bty t)] [S "func"; cparams ps; cty t] _ _ [] []);
-         [|exact HB|constructor|]|].
-      + constructor; [apply (free_kw_text _ _ (kw_Func Hok)); reflexivity|].
-        constructor; [apply params_free|]. constructor; [apply ty_operand | constructor].
-      + intros suf. unfold bparams. rewrite (kw_Func Hok), (gParams_eq Hok), (gBlock_eq Hok). reflexivity.
-      + txt.
-    - eapply chain_eq;
-        [eapply (chain_block [kw (S "Func"); bparams ps] [S "func"; cparams ps] _ _ [] []);
-         [|exact HB|constructor|]|].
-      + constructor; [apply (free_kw_text _ _ (kw_Func Hok)); reflexivity|].
-        constructor; [apply params_free | constructor].
-      + intros suf. unfold bparams. rewrite (kw_Func Hok), (gParams_eq Hok), (gBlock_eq Hok). reflexivity.
-      + txt.
+    intros Hb. unfold Pe. cbn [bexpr cexpr].
+    eapply chain_eq; [apply (func_chain [kw (S "Func")] [S "func"] ps res body); [| |exact Hb]|].
+    - constructor; [apply (free_kw_text _ _ (kw_Func Hok)); reflexivity | constructor].
+    - ctx3 res.
+    - txt3 res.
+  Qed.
+
+  Lemma pe_assert x t : Pe x -> Pe (EAssert x t).
+  Proof.
+    intros Hx. unfold Pe. cbn [bexpr cexpr].
+    eapply chain_eq; [eapply (chain_app cfg _ _ _ [_] Hx); [|discriminate]|].
+    - constructor; [apply (free_assert [_] [cty t]) | constructor].
+      constructor; [apply chain_good, ty_chain | constructor].
+    - reflexivity.
   Qed.
 
   (* ---- statements ---- *)
@@ -737,6 +925,84 @@ Section Build.
     - destruct t, e; unfold tyval_texts; txt.
   Qed.
 
+  Lemma ps_labeled l s : Ps s -> Ps (SLabeled l s).
+  Proof.
+    intros Hs. unfold Ps. cbn [bstmt cstmt].
+    eapply chain_eq; [apply (chain_free cfg _ [l; S ":"; cstmt s]); [|discriminate]|reflexivity].
+    constructor; [apply free_id|]. constructor; [apply free_op; reflexivity|].
+    constructor; [apply chain_operand, Hs | constructor].
+  Qed.
+
+  Lemma ps_goto l : Ps (SGoto l).
+  Proof.
+    unfold Ps. cbn [bstmt cstmt].
+    eapply chain_eq; [apply (chain_free cfg _ [S "goto"; l]); [|discriminate]|reflexivity].
+    constructor; [apply (free_kw_text _ _ (kw_Goto Hok)); reflexivity|]. constructor; [apply free_id | constructor].
+  Qed.
+
+  Lemma ps_fallthrough : Ps SFallthrough.
+  Proof. unfold Ps. cbn [bstmt cstmt]. apply one_free, (free_kw_text _ _ (kw_Fallthrough Hok)). reflexivity. Qed.
+
+  Lemma ps_send c v : Pe c -> Pe v -> Ps (SSend c v).
+  Proof.
+    intros Hc Hv. unfold Ps. cbn [bstmt cstmt].
+    eapply chain_eq; [apply (chain_app cfg _ _ _ [S "<-"; cexpr v] Hc); [|discriminate]|reflexivity].
+    constructor; [apply free_op; reflexivity|]. constructor; [apply chain_operand, Hv | constructor].
+  Qed.
+
+  Lemma ps_select cls : Forall Pc cls -> Ps (SSelect cls).
+  Proof.
+    intros Hc. unfold Ps. cbn [bstmt cstmt]. pose proof (clauses_good cls Hc) as HB.
+    eapply chain_eq; [eapply (chain_block [_] [S "select"] _ _ [] []);
+                      [constructor; [apply (free_kw_text _ _ (kw_Select Hok)); reflexivity | constructor]|exact HB|constructor|]|].
+    - intros suf. rewrite (kw_Select Hok), (gBlock_eq Hok). reflexivity.
+    - txt.
+  Qed.
+
+  (* the guard of a type switch: [b :=] x .(type) *)
+  Lemma guard_good bind x : Pe x ->
+    good cfg (CStmt (match bind with
+                     | Some b => [id b; op (S ":="); CStmt (bexpr x ++ [gAssert 0 [CStmt [kw (S "Type")]]])]
+                     | None => bexpr x ++ [gAssert 0 [CStmt [kw (S "Type")]]]
+                     end))
+         (opt_text (fun b => b ++ S " := ") bind ++ cexpr x ++ S " .(type)").
+  Proof.
+    intros Hx.
+    assert (HG : chain cfg (bexpr x ++ [gAssert 0 [CStmt [kw (S "Type")]]]) (cexpr x ++ S " .(type)")).
+    { eapply chain_eq; [eapply (chain_app cfg _ _ _ [_] Hx); [|discriminate]|].
+      - constructor; [apply (free_assert [_] [S "type"]) | constructor].
+        constructor; [|constructor]. apply chain_good, one_free, (free_kw_text _ _ (kw_Type Hok)). reflexivity.
+      - reflexivity. }
+    destruct bind as [b|]; cbn [opt_text].
+    - apply chain_good. eapply chain_eq; [apply (chain_free cfg _ [b; S ":="; cexpr x ++ S " .(type)"]); [|discriminate]|].
+      + constructor; [apply free_id|]. constructor; [apply free_op; reflexivity|].
+        constructor; [apply chain_operand, HG | constructor].
+      + cbn [join]. rewrite <- !app_assoc. reflexivity.
+    - apply chain_good, HG.
+  Qed.
+
+  Lemma ps_typeswitch init bind x cls : OptP Ps init -> Pe x -> Forall Pc cls -> Ps (STypeSwitch init bind x cls).
+  Proof.
+    intros Hi Hx Hc. unfold Ps. cbn [bstmt cstmt]. pose proof (clauses_good cls Hc) as HB.
+    pose proof (guard_good bind x Hx) as HG.
+    set (gx := opt_text (fun b => b ++ S " := ") bind ++ cexpr x ++ S " .(type)") in *.
+    assert (HH : forall hd hxs, Forall2 (good cfg) hd hxs ->
+              chain cfg [gSwitch 0 hd; gBlock 1 (map bclause cls)]
+                    ((S "switch " ++ join (S ";") hxs) ++ sp ++ braces (map cclause cls))).
+    { intros hd hxs Hhd.
+      eapply chain_eq; [eapply (chain_block [_] [_] _ _ [] []);
+                        [constructor; [apply (free_switch hd hxs Hhd) | constructor]|exact HB|constructor|]|].
+      - intros suf. rewrite (gSwitch_eq Hok), (gBlock_eq Hok). reflexivity.
+      - txt. }
+    destruct init as [s|]; cbn [OptP opt_items opt_text app] in *.
+    - eapply chain_eq; [apply (HH [_; _] [cstmt s; gx])|].
+      + constructor; [apply chain_good, Hi|]. constructor; [exact HG | constructor].
+      + unfold gx. cbn [join]. rewrite <- !app_assoc. reflexivity.
+    - eapply chain_eq; [apply (HH [_] [gx])|].
+      + constructor; [exact HG | constructor].
+      + unfold gx. cbn [join]. rewrite <- !app_assoc. reflexivity.
+  Qed.
+
   (* ---- clauses: the Block after Case / Default has no braces ---- *)
   Lemma pc_case e es body : Pe e -> Forall Pe es -> Forall Ps body -> Pc (CCase e es body).
   Proof.
@@ -760,13 +1026,36 @@ Section Build.
       - intros suf. rewrite (kw_Default Hok), (gBlock_eq Hok). reflexivity. }
     exact H.
   Qed.
+  Lemma pc_comm s body : Ps s -> Forall Ps body -> Pc (CComm s body).
+  Proof.
+    intros Hs Hb. unfold Pc. cbn [bclause cclause]. pose proof (stmts_good body Hb) as HB.
+    assert (H : good cfg (CStmt [gCase 0 [CStmt (bstmt s)]; gBlock 1 (map (fun s => CStmt (bstmt s)) body)])
+                     ((S "case " ++ join comma [cstmt s] ++ S ":") ++ sp ++ lines (map cstmt body))).
+    { apply good_case_block; [apply free_case; constructor; [apply chain_good, Hs | constructor] | exact HB |].
+      intros suf. rewrite (gCase_eq Hok), (gBlock_eq Hok). reflexivity. }
+    destruct H as [H1 H2]. split; [exact H1|]. eapply free_eq; [exact H2|].
+    cbn [join]. rewrite <- !app_assoc. reflexivity.
+  Qed.
+
+  Lemma pc_type t ts body : Forall Ps body -> Pc (CType t ts body).
+  Proof.
+    intros Hb. unfold Pc. cbn [bclause cclause]. pose proof (stmts_good body Hb) as HB.
+    assert (H : good cfg (CStmt [gCase 0 (map (fun a => CStmt (bty a)) (t :: ts)); gBlock 1 (map (fun s => CStmt (bstmt s)) body)])
+                     ((S "case " ++ join comma (map cty (t :: ts)) ++ S ":") ++ sp ++ lines (map cstmt body))).
+    { apply good_case_block; [apply free_case | exact HB |].
+      - apply Forall2_map_both. apply Forall_forall. intros a _. apply chain_good, ty_chain.
+      - intros suf. rewrite (gCase_eq Hok), (gBlock_eq Hok). reflexivity. }
+    destruct H as [H1 H2]. split; [exact H1|]. eapply free_eq; [exact H2|].
+    rewrite <- !app_assoc. reflexivity.
+  Qed.
+
   (* ---- all trees ---- *)
   Theorem all_chains : (forall e, Pe e) /\ (forall s, Ps s) /\ (forall c, Pc c).
   Proof.
     exact (mini_ind Pe Ps Pc pe_id pe_int pe_str pe_bool pe_nil pe_un pe_bin pe_call pe_index pe_slice
-             pe_slice3 pe_sel pe_paren pe_comp pe_func ps_expr ps_assign ps_incdec ps_return ps_if ps_for
+             pe_slice3 pe_sel pe_paren pe_comp pe_keyed pe_func pe_assert ps_expr ps_assign ps_incdec ps_return ps_if ps_for
              ps_while ps_loop ps_range ps_switch ps_block ps_break ps_continue ps_go ps_defer ps_var
-             pc_case pc_default).
+             ps_labeled ps_goto ps_fallthrough ps_send ps_select ps_typeswitch pc_case pc_default pc_comm pc_type).
   Qed.
 
   Lemma expr_chain e : chain cfg (bexpr e) (cexpr e).
@@ -796,23 +1085,18 @@ Section Build.
 
   Lemma decl_chain d : chain cfg (bdecl d) (cdecl d).
   Proof.
-    destruct d as [name ps res body | specs | specs | name t]; cbn [bdecl cdecl].
-    - pose proof (stmts_good body (all_stmts body)) as HB.
-      destruct res as [t|]; cbn [bresult opt_items app].
-      + eapply chain_eq;
-          [eapply (chain_block [kw (S "Func"); id name; bparams ps; CStmt (bty t)] [S "func"; name; cparams ps; cty t] _ _ [] []);
-           [|exact HB|constructor|]|].
-        * constructor; [apply (free_kw_text _ _ (kw_Func Hok)); reflexivity|]. constructor; [apply free_id|].
-          constructor; [apply params_free|]. constructor; [apply ty_operand | constructor].
-        * intros suf. unfold bparams. rewrite (kw_Func Hok), (gParams_eq Hok), (gBlock_eq Hok). reflexivity.
-        * txt.
-      + eapply chain_eq;
-          [eapply (chain_block [kw (S "Func"); id name; bparams ps] [S "func"; name; cparams ps] _ _ [] []);
-           [|exact HB|constructor|]|].
-        * constructor; [apply (free_kw_text _ _ (kw_Func Hok)); reflexivity|]. constructor; [apply free_id|].
-          constructor; [apply params_free | constructor].
-        * intros suf. unfold bparams. rewrite (kw_Func Hok), (gParams_eq Hok), (gBlock_eq Hok). reflexivity.
-        * txt.
+    destruct d as [name ps res body | recv name ps res body | specs | specs | name t]; cbn [bdecl cdecl].
+    - eapply chain_eq; [apply (func_chain [kw (S "Func"); id name] [S "func"; name] ps res body); [| |apply all_stmts]|].
+      + constructor; [apply (free_kw_text _ _ (kw_Func Hok)); reflexivity|]. constructor; [apply free_id | constructor].
+      + ctx3 res.
+      + txt3 res.
+    - eapply chain_eq;
+        [apply (func_chain [kw (S "Func"); bparams [recv]; id name] [S "func"; cparams [recv]; name] ps res body);
+         [| |apply all_stmts]|].
+      + constructor; [apply (free_kw_text _ _ (kw_Func Hok)); reflexivity|].
+        constructor; [apply params_free|]. constructor; [apply free_id | constructor].
+      + ctx3 res.
+      + txt3 res.
     - eapply chain_eq; [apply (defs_chain _ _ specs (kw_Var Hok)); reflexivity | reflexivity].
     - eapply chain_eq; [apply (defs_chain _ _ specs (kw_Const Hok)); reflexivity | reflexivity].
     - eapply chain_eq; [apply (chain_free cfg _ [S "type"; name; cty t]); [|discriminate]|reflexivity].
@@ -876,3 +1160,65 @@ Qed.
 
 Lemma tables_ok_holds : tables_ok = true.
 Proof. vm_compute. reflexivity. Qed.
+
+(* ------------------------------------------------------------------ keyed elements: the order *)
+Lemma isort_by_sorted_id {A} (key : A -> str) l : StronglySorted (key_le key) l -> isort_by key l = l.
+Proof.
+  induction 1 as [|x l Hs IH Hall]; [reflexivity|]. cbn [isort_by]. rewrite IH.
+  destruct l as [|y l]; [reflexivity|]. cbn [insert_by].
+  inversion Hall as [|? ? Hxy _]; subst. unfold key_le in Hxy. rewrite Hxy. reflexivity.
+Qed.
+
+Definition ctext_pair (kv : expr * expr) : str * str := (cexpr (fst kv), cexpr (snd kv)).
+
+Lemma keyed_texts_sorted pairs : sort_keyed (map ctext_pair pairs) = map ctext_pair (keyed_sorted pairs).
+Proof.
+  unfold sort_keyed, keyed_sorted. symmetry.
+  apply (isort_by_map (fun kv => cexpr (fst kv)) fst ctext_pair). intros kv. reflexivity.
+Qed.
+
+Lemma keyed_sorted_idem pairs : keyed_sorted (keyed_sorted pairs) = keyed_sorted pairs.
+Proof. unfold keyed_sorted. apply isort_by_sorted_id, isort_by_sorted. Qed.
+
+(* the text of a keyed literal is the text of the literal whose elements are listed in sorted
+   order; that list is a permutation of the elements *)
+Theorem keyed_canon_sorted t pairs :
+  cexpr (EKeyed t pairs) = cexpr (EKeyed t (keyed_sorted pairs)) /\ Permutation (keyed_sorted pairs) pairs.
+Proof.
+  split; [|apply isort_by_perm]. cbn [cexpr].
+  change (map (fun kv => (cexpr (fst kv), cexpr (snd kv)))) with (map ctext_pair).
+  rewrite !keyed_texts_sorted, keyed_sorted_idem. reflexivity.
+Qed.
+
+Lemma distinct_strs_NoDup l : distinct_strs l = true -> NoDup l.
+Proof.
+  induction l as [|a l IH]; intros H; [constructor|]. cbn [distinct_strs] in H.
+  apply andb_true_iff in H. destruct H as [H1 H2]. constructor; [|exact (IH H2)].
+  intros Hin. apply negb_true_iff in H1. assert (E : existsb (str_eqb a) l = true).
+  { apply existsb_exists. exists a. split; [exact Hin | apply str_eqb_refl]. }
+  congruence.
+Qed.
+
+(* with pairwise distinct key texts the order of the pairs (Go: the iteration order of the map)
+   does not matter *)
+Theorem keyed_sorted_perm pairs pairs' : keys_ok pairs = true -> Permutation pairs pairs' ->
+  keyed_sorted pairs = keyed_sorted pairs'.
+Proof.
+  intros Hk Hp. unfold keyed_sorted. apply isort_by_perm_invariant; [|exact Hp].
+  apply distinct_strs_NoDup, Hk.
+Qed.
+
+Theorem keyed_canon_perm t pairs pairs' : keys_ok pairs = true -> Permutation pairs pairs' ->
+  cexpr (EKeyed t pairs) = cexpr (EKeyed t pairs').
+Proof.
+  intros Hk Hp. rewrite (proj1 (keyed_canon_sorted t pairs)), (proj1 (keyed_canon_sorted t pairs')).
+  rewrite (keyed_sorted_perm pairs pairs' Hk Hp). reflexivity.
+Qed.
+
+(* a literal whose elements are already in the order of their key texts is written as it stands *)
+Theorem keyed_canon_in_order t pairs : keyed_sorted pairs = pairs ->
+  cexpr (EKeyed t pairs) = cty t ++ S " {" ++ keyed_body (map ctext_pair pairs) ++ S "}".
+Proof.
+  intros E. cbn [cexpr]. change (map (fun kv => (cexpr (fst kv), cexpr (snd kv)))) with (map ctext_pair).
+  rewrite keyed_texts_sorted, E. reflexivity.
+Qed.
